@@ -11,7 +11,9 @@ MANIFEST = {
             "coap_io_prepare_io_lkd, ACK/RST dispatch, NSTART gate + delay queue), EVERY event sequence over the C06 alphabet, any number "
             "of messages and sessions sharing the queue: m_schedule_all (punctual runs: every transmission at t0 + (2^k-1)T of its own "
             "coap_send, T the ONE coap_calc_timeout value drawn at that submission, k <= MAX_RETRANSMIT), m_pending_on_schedule, "
-            "m_due_fires, m_single_outcome (accepted sends = outcome NACKs + ACK completions + queued + delayed), m_never_sent_again, "
+            "m_giveup_after_all_retransmissions, m_at_most_max_retransmissions, m_due_fires, punctual_of_clock (sleeping no longer "
+            "than the returned wait gives a punctual run), m_single_outcome (accepted sends = outcome NACKs + ACK completions + queued + "
+            "delayed), m_never_sent_again, "
             "m_pdu_and_timeout_fixed (mid/token/type and stored timeout of every queued or delayed node are those of its coap_send; only "
             "t and retransmit_cnt change).  m_refines_timer_partial: exact simulation M -> S (same pending list, same observable outputs "
             "in order) when CONs are submitted with NSTART room and no submission/RST races a due retransmission.  M is tied to the "
@@ -35,7 +37,8 @@ REQUIRED_THEOREMS = ["queue_abs_invariant", "insert_commutes", "pop_commutes", "
                      "retransmit_schedule", "single_outcome", "no_tx_without_pending", "queue_empty_all_concluded", "due_fires",
                      "m_solo_giveup", "m_solo_acked", "m_solo_rst",
                      "wait_le_every_deadline", "m_schedule_all", "m_pending_on_schedule", "m_due_fires", "m_single_outcome",
-                     "m_never_sent_again", "m_pdu_and_timeout_fixed",
+                     "m_never_sent_again", "m_pdu_and_timeout_fixed", "m_giveup_after_all_retransmissions",
+                     "m_at_most_max_retransmissions", "sleep_returned_wait_ok", "punctual_of_clock",
                      "m_refines_timer_partial", "m_refines_timer_from_partial", "m_schedule_via_timer_partial",
                      "m_single_outcome_via_timer_partial"]
 RULE = ("scenario lines for harness/msg.c (one real client context, 1-3 UDP sessions sharing the send queue, virtual clock, "
